@@ -477,6 +477,33 @@ pub fn vecop<M: Machine>(m: M, ty: u32, op: u32, a: &[u8; 64], b: &[u8; 64], c: 
     }
 }
 
+/// C16: byte I/O through a caller slice of ARBITRARY length: read_le / read_be from p[..len] (result to `out`), write_le / write_be
+/// of the vector loaded from `a` into p[..len]. A length other than the vector size must be rejected (panic), never accessed.
+#[inline(always)]
+pub unsafe fn vecio<M: Machine>(m: M, ty: u32, op: u32, a: &[u8; 64], p: *mut u8, len: usize, out: &mut [u8; 64]) -> u32 {
+    let s = core::slice::from_raw_parts_mut(p, len);
+    macro_rules! io {
+        ($V:ty, $ld:ident, $st:ident) => {
+            match op {
+                READ_LE => $st(m.read_le::<$V>(s), &mut out[..]),
+                READ_BE => $st(m.read_be::<$V>(s), &mut out[..]),
+                WRITE_LE => $ld::<M, $V>(m, &a[..]).write_le(s),
+                WRITE_BE => $ld::<M, $V>(m, &a[..]).write_be(s),
+                _ => return 1,
+            }
+        };
+    }
+    match ty {
+        T_U32X4 => io!(M::u32x4, ld128, st128),
+        T_U32X4X2 => io!(M::u32x4x2, ld256, st256),
+        T_U64X2X2 => io!(M::u64x2x2, ld256, st256),
+        T_U64X4 => io!(M::u64x4, ld256, st256),
+        T_U32X4X4 => io!(M::u32x4x4, ld512, st512),
+        _ => return 1,
+    }
+    0
+}
+
 #[cfg(not(feature = "no_simd"))]
 mod x86 {
     use super::*;
@@ -504,6 +531,29 @@ mod x86 {
     pub unsafe fn avx2(ty: u32, op: u32, a: &[u8; 64], b: &[u8; 64], c: &[u8; 64], d: &[u8; 64], i: u32, out: &mut [u8; 256]) -> u32 {
         vecop(AVX2::instance(), ty, op, a, b, c, d, i, out)
     }
+    #[target_feature(enable = "sse2")]
+    pub unsafe fn io_sse2(ty: u32, op: u32, a: &[u8; 64], p: *mut u8, len: usize, out: &mut [u8; 64]) -> u32 {
+        vecio(SSE2::instance(), ty, op, a, p, len, out)
+    }
+    #[target_feature(enable = "ssse3")]
+    pub unsafe fn io_ssse3(ty: u32, op: u32, a: &[u8; 64], p: *mut u8, len: usize, out: &mut [u8; 64]) -> u32 {
+        vecio(SSSE3::instance(), ty, op, a, p, len, out)
+    }
+    #[target_feature(enable = "sse4.1")]
+    #[target_feature(enable = "ssse3")]
+    pub unsafe fn io_sse41(ty: u32, op: u32, a: &[u8; 64], p: *mut u8, len: usize, out: &mut [u8; 64]) -> u32 {
+        vecio(SSE41::instance(), ty, op, a, p, len, out)
+    }
+    #[target_feature(enable = "avx")]
+    #[target_feature(enable = "sse4.1")]
+    #[target_feature(enable = "ssse3")]
+    pub unsafe fn io_avx(ty: u32, op: u32, a: &[u8; 64], p: *mut u8, len: usize, out: &mut [u8; 64]) -> u32 {
+        vecio(AVX::instance(), ty, op, a, p, len, out)
+    }
+    #[target_feature(enable = "avx2")]
+    pub unsafe fn io_avx2(ty: u32, op: u32, a: &[u8; 64], p: *mut u8, len: usize, out: &mut [u8; 64]) -> u32 {
+        vecio(AVX2::instance(), ty, op, a, p, len, out)
+    }
 }
 
 #[cfg(not(feature = "no_simd"))]
@@ -513,11 +563,19 @@ entries! {
     fn h_vec_sse41(ty: u32, op: u32, a: *const [u8; 64], b: *const [u8; 64], c: *const [u8; 64], d: *const [u8; 64], i: u32, out: *mut [u8; 256]) -> u32 { x86::sse41(ty, op, &*a, &*b, &*c, &*d, i, &mut *out) }
     fn h_vec_avx(ty: u32, op: u32, a: *const [u8; 64], b: *const [u8; 64], c: *const [u8; 64], d: *const [u8; 64], i: u32, out: *mut [u8; 256]) -> u32 { x86::avx(ty, op, &*a, &*b, &*c, &*d, i, &mut *out) }
     fn h_vec_avx2(ty: u32, op: u32, a: *const [u8; 64], b: *const [u8; 64], c: *const [u8; 64], d: *const [u8; 64], i: u32, out: *mut [u8; 256]) -> u32 { x86::avx2(ty, op, &*a, &*b, &*c, &*d, i, &mut *out) }
+    fn h_vecio_sse2(ty: u32, op: u32, a: *const [u8; 64], p: *mut u8, len: usize, out: *mut [u8; 64]) -> u32 { x86::io_sse2(ty, op, &*a, p, len, &mut *out) }
+    fn h_vecio_ssse3(ty: u32, op: u32, a: *const [u8; 64], p: *mut u8, len: usize, out: *mut [u8; 64]) -> u32 { x86::io_ssse3(ty, op, &*a, p, len, &mut *out) }
+    fn h_vecio_sse41(ty: u32, op: u32, a: *const [u8; 64], p: *mut u8, len: usize, out: *mut [u8; 64]) -> u32 { x86::io_sse41(ty, op, &*a, p, len, &mut *out) }
+    fn h_vecio_avx(ty: u32, op: u32, a: *const [u8; 64], p: *mut u8, len: usize, out: *mut [u8; 64]) -> u32 { x86::io_avx(ty, op, &*a, p, len, &mut *out) }
+    fn h_vecio_avx2(ty: u32, op: u32, a: *const [u8; 64], p: *mut u8, len: usize, out: *mut [u8; 64]) -> u32 { x86::io_avx2(ty, op, &*a, p, len, &mut *out) }
 }
 
 #[cfg(feature = "no_simd")]
 entries! {
     fn h_vec_generic(ty: u32, op: u32, a: *const [u8; 64], b: *const [u8; 64], c: *const [u8; 64], d: *const [u8; 64], i: u32, out: *mut [u8; 256]) -> u32 {
         vecop(ppv_lite86::generic::GenericMachine::instance(), ty, op, &*a, &*b, &*c, &*d, i, &mut *out)
+    }
+    fn h_vecio_generic(ty: u32, op: u32, a: *const [u8; 64], p: *mut u8, len: usize, out: *mut [u8; 64]) -> u32 {
+        vecio(ppv_lite86::generic::GenericMachine::instance(), ty, op, &*a, p, len, &mut *out)
     }
 }
